@@ -11,7 +11,7 @@ use oracle::gen::{gen_adf, spell, Fact, GenAdf, LabelMode};
 use oracle::grammar::{self, PF};
 use oracle::sem::BigSem;
 use oracle::{Rng, Val, F, VF, VT, VU};
-use serde_json::json;
+use serde_json::{json, Value};
 
 fn formula_to_pf(f: &Formula) -> PF {
     match f {
@@ -103,6 +103,169 @@ pub fn c08(cfg: &Cfg, rep: &mut Report) {
         }
         c08_case(cfg, rep, cfg.case_seed(i));
     }
+    let big = cfg.get_usize("big_files", if cfg.thorough { 2 } else if cfg.shard < 6 && !cfg.flag("trace_log") { 1 } else { 0 });
+    for i in 0..big {
+        if rep.too_many() {
+            break;
+        }
+        c08_big(cfg, rep, cfg.case_seed(5_000_000 + i), i);
+    }
+}
+
+/// big files: hundreds to tens of thousands of statements (beyond every 8 and 16 bit counter), long labels,
+/// numbers beyond the machine word; every formula small. Same judgement as for the small positives; the
+/// native compile is checked by sampling for the moderately big ones.
+fn c08_big(cfg: &Cfg, rep: &mut Report, case_seed: u64, idx: usize) {
+    let mut rng = Rng::new(case_seed ^ 0xB08);
+    let n = cfg.get_usize(
+        "big_n",
+        if cfg.thorough && cfg.shard == 0 && idx == 0 {
+            140_000
+        } else if cfg.thorough {
+            rng.range(257, 5000)
+        } else if cfg.shard == 0 {
+            66_000
+        } else if cfg.shard == 1 {
+            rng.range(1000, 5000)
+        } else {
+            rng.range(257, 700)
+        },
+    );
+    let mode = rng.below(4);
+    let labels: Vec<String> = (0..n)
+        .map(|i| match mode {
+            0 => format!("st{}", i),
+            // decimal numbers, many of them beyond 64 bits, some with leading zeros
+            1 => {
+                if i % 3 == 0 {
+                    format!("{}", 18446744073709551616u128 + (i as u128) * 1_000_000_007)
+                } else if i % 3 == 1 {
+                    format!("00{}", i)
+                } else {
+                    format!("{}", i)
+                }
+            }
+            // long quoted labels (300 to 600 characters) with blanks and brackets
+            2 => format!("{} ({})", "long label ".repeat(28 + i % 27), i),
+            _ => format!("{}{}", ["and", "or", "neg", "c", "imp", "xor", "iff", "s", "ac"][i % 9], i),
+        })
+        .collect();
+    let ac: Vec<F> = (0..n)
+        .map(|_| {
+            let k = rng.range(1, 3);
+            let atoms: Vec<usize> = (0..k).map(|_| rng.below(n)).collect();
+            let d = rng.range(0, 3);
+            F::random(&mut rng, &atoms, d)
+        })
+        .collect();
+    let g = GenAdf { n, labels, ac, family: "big-file" };
+    let r = g.render(&mut rng, true);
+    rep.evaluations += 1;
+    rep.count("big_files", 1);
+    rep.max("max_statements_in_one_file", n as u64);
+    rep.max("max_text_bytes", r.text.len() as u64);
+    rep.max("max_label_bytes", g.labels.iter().map(|l| l.len()).max().unwrap_or(0) as u64);
+    let replay = json!({"property": "c08", "case_seed": case_seed.to_string(), "big_file": true, "statements": n, "label_mode": mode, "shard": cfg.shard, "index": idx});
+    if !positive_parse_check(rep, &g, &r, &replay, false) {
+        return;
+    }
+    rep.nontrivial.insert(hash_str(&format!("big{}", case_seed)));
+    if n > 5000 {
+        return;
+    }
+    match build(&r.text, Sort::None, false) {
+        Ok(o) => {
+            let pos: std::collections::HashMap<&String, usize> = g.labels.iter().enumerate().map(|(i, l)| (l, i)).collect();
+            let perm: Option<Vec<usize>> = o.names.iter().map(|nm| pos.get(nm).copied()).collect();
+            let Some(perm) = perm else {
+                rep.violation("names-not-a-permutation", "big file".into(), replay);
+                return;
+            };
+            if let Err(e) = check_functions_sampled(&o.native, &g, &perm, None, &mut rng, 6, rep) {
+                rep.violation("parser-compiled-function-differs", e, replay);
+                return;
+            }
+            rep.count("compiled_adfs_checked", 1);
+        }
+        Err(e) => rep.violation("parser-positive-build", e.describe(), replay),
+    }
+}
+
+/// a generated positive: the independent recogniser agrees, the library accepts it, statement order, dictionary
+/// and every formula are the ones written. `false` = stop judging this case (something was reported).
+fn positive_parse_check(rep: &mut Report, g: &GenAdf, r: &oracle::gen::Rendered, replay: &Value, _sample: bool) -> bool {
+    let n = g.n;
+    let replay = replay.clone();
+    // the independent recogniser must agree that this is in the language
+    let rec = match grammar::recognise(&r.text) {
+        Ok(p) => p,
+        Err(e) => {
+            rep.count("generator_recogniser_disagreements", 1);
+            rep.inconclusive.push(format!("recogniser rejects generated positive ({}): {:?}", e, r.text));
+            return false;
+        }
+    };
+    // expected formulas in file order
+    let expected: Vec<(usize, PF)> = r
+        .facts
+        .iter()
+        .filter_map(|f| match f {
+            Fact::Ac(i) => Some((*i, f_to_pf(&g.ac[*i], &g.labels))),
+            _ => None,
+        })
+        .collect();
+    let decl: Vec<String> = r.decl_order.iter().map(|i| g.labels[*i].clone()).collect();
+    if rec.statements != decl || rec.acs.iter().map(|(_, f)| f).ne(expected.iter().map(|(_, f)| f)) {
+        rep.inconclusive.push(format!("recogniser and generator disagree on the content of {:?}", r.text));
+        return false;
+    }
+    let kinds: u32 = g.ac.iter().map(|f| f.kinds()).fold(0, |a, b| a | b);
+    if (kinds >> 3).count_ones() >= 3 && g.special_labels() >= 1 {
+        rep.nontrivial.insert(hash_str(&r.text));
+    }
+    if rep.samples.len() < 3 && r.text.len() < 400 {
+        rep.sample(json!({"positive": r.text}));
+    }
+    match lib_parse(&r.text, &g.labels) {
+        Err(c) => {
+            rep.violation(&format!("parser-positive:{}", c.kind()), format!("{} on {:?}", c.describe(), r.text), replay);
+            return false;
+        }
+        Ok(Err(e)) => {
+            rep.violation("parser-rejects-valid-input", format!("{} for {:?}", e, r.text), replay);
+            return false;
+        }
+        Ok(Ok(lp)) => {
+            rep.count("positives_accepted", 1);
+            if lp.names != decl || lp.dict_size != n {
+                rep.violation("parser-dictionary-order", format!("names {:?}, first-declaration order {:?}", lp.names, decl), replay);
+                return false;
+            }
+            let pos_of: std::collections::HashMap<&String, usize> = decl.iter().enumerate().map(|(i, l)| (l, i)).collect();
+            for (l, idx) in &lp.dict {
+                if *idx != pos_of.get(l).copied() {
+                    rep.violation("parser-dictionary-value", format!("dict_value({:?}) = {:?}", l, idx), replay);
+                    return false;
+                }
+            }
+            if lp.formulas.len() != expected.len() {
+                rep.violation("parser-formula-count", format!("{} formulas for {} ac facts", lp.formulas.len(), expected.len()), replay);
+                return false;
+            }
+            for (k, (st, want)) in expected.iter().enumerate() {
+                rep.count("formulas_compared", 1);
+                if lp.formulas[k] != *want {
+                    rep.violation(
+                        "parser-ast-differs",
+                        format!("formula #{} (statement {:?}): parsed {:?}, written {:?}", k, g.labels[*st], lp.formulas[k], want),
+                        replay,
+                    );
+                    return false;
+                }
+            }
+        }
+    }
+    true
 }
 
 pub fn c08_case(cfg: &Cfg, rep: &mut Report, case_seed: u64) {
@@ -121,73 +284,8 @@ pub fn c08_case(cfg: &Cfg, rep: &mut Report, case_seed: u64) {
     let r = g.render(&mut rng, true);
     rep.evaluations += 1;
     let replay = json!({"property": "c08", "case_seed": case_seed.to_string(), "text": if r.text.len() < 3000 { r.text.clone() } else { format!("{}...", r.text.chars().take(3000).collect::<String>()) }});
-    // the independent recogniser must agree that this is in the language
-    let rec = match grammar::recognise(&r.text) {
-        Ok(p) => p,
-        Err(e) => {
-            rep.count("generator_recogniser_disagreements", 1);
-            rep.inconclusive.push(format!("recogniser rejects generated positive ({}): {:?}", e, r.text));
-            return;
-        }
-    };
-    // expected formulas in file order
-    let expected: Vec<(usize, PF)> = r
-        .facts
-        .iter()
-        .filter_map(|f| match f {
-            Fact::Ac(i) => Some((*i, f_to_pf(&g.ac[*i], &g.labels))),
-            _ => None,
-        })
-        .collect();
-    let decl: Vec<String> = r.decl_order.iter().map(|i| g.labels[*i].clone()).collect();
-    if rec.statements != decl || rec.acs.iter().map(|(_, f)| f).ne(expected.iter().map(|(_, f)| f)) {
-        rep.inconclusive.push(format!("recogniser and generator disagree on the content of {:?}", r.text));
+    if !positive_parse_check(rep, &g, &r, &replay, true) {
         return;
-    }
-    let kinds: u32 = g.ac.iter().map(|f| f.kinds()).fold(0, |a, b| a | b);
-    if (kinds >> 3).count_ones() >= 3 && g.special_labels() >= 1 {
-        rep.nontrivial.insert(hash_str(&r.text));
-    }
-    if rep.samples.len() < 3 && r.text.len() < 400 {
-        rep.sample(json!({"positive": r.text}));
-    }
-    match lib_parse(&r.text, &g.labels) {
-        Err(c) => {
-            rep.violation(&format!("parser-positive:{}", c.kind()), format!("{} on {:?}", c.describe(), r.text), replay);
-            return;
-        }
-        Ok(Err(e)) => {
-            rep.violation("parser-rejects-valid-input", format!("{} for {:?}", e, r.text), replay);
-            return;
-        }
-        Ok(Ok(lp)) => {
-            rep.count("positives_accepted", 1);
-            if lp.names != decl || lp.dict_size != n {
-                rep.violation("parser-dictionary-order", format!("names {:?}, first-declaration order {:?}", lp.names, decl), replay);
-                return;
-            }
-            for (l, idx) in &lp.dict {
-                if *idx != decl.iter().position(|x| x == l) {
-                    rep.violation("parser-dictionary-value", format!("dict_value({:?}) = {:?}", l, idx), replay);
-                    return;
-                }
-            }
-            if lp.formulas.len() != expected.len() {
-                rep.violation("parser-formula-count", format!("{} formulas for {} ac facts", lp.formulas.len(), expected.len()), replay);
-                return;
-            }
-            for (k, (st, want)) in expected.iter().enumerate() {
-                rep.count("formulas_compared", 1);
-                if lp.formulas[k] != *want {
-                    rep.violation(
-                        "parser-ast-differs",
-                        format!("formula #{} (statement {:?}): parsed {:?}, written {:?}", k, g.labels[*st], lp.formulas[k], want),
-                        replay,
-                    );
-                    return;
-                }
-            }
-        }
     }
     // compiled handles denote the written functions (native compile only here; all pipelines in C09)
     if !deep || n <= 6 {
